@@ -270,4 +270,80 @@ theorem normKind_member {rec : Rec} {k n P : String} {f : Field} (hm : memberFie
           obtain ⟨st, hst, hmem⟩ := normPart_mem hnp hf
           exact ⟨st, hst, fun m hm' => List.mem_flatten.mpr ⟨b, hb, hmem m hm'⟩⟩
 
+/-! ### response (hand-written codec) -/
+
+theorem description_field : (⟨"Description", "description", false, false, false, .str⟩ : Field) ∈ tableOf "ResponseProps" := by
+  decide
+
+/-- **response**: unless it is given by reference (a non-empty `$ref` in the output), the encoding of a response
+carries a `description` member, whatever the input object was -/
+theorem response_description {rec : Rec} {ms : List (String × Json)} {j' : Json}
+    (h : normKind rec "response" (.obj ms) = .ok j') :
+    ∃ out, j' = .obj out ∧ ((∀ t, ("$ref", Json.str t) ∈ out → t = "") → ∃ r, ("description", r) ∈ out) := by
+  have hk : normKind rec "response" (.obj ms) = normResponse rec (.obj ms) := by
+    simp [normKind]
+  rw [hk] at h
+  simp only [normResponse, structMembers, bind, Except.bind, pure, Except.pure] at h
+  cases hfull : normFields rec (tableOf "ResponseProps") (tableOf "ResponseProps") ms with
+  | error e => rw [hfull] at h; cases h
+  | ok full =>
+    rw [hfull] at h
+    simp only at h
+    cases hb2 : normRefable (.obj ms) with
+    | error e => rw [hb2] at h; cases h
+    | ok b2 =>
+      rw [hb2] at h
+      simp only at h
+      cases hb3 : normExtensions (.obj ms) with
+      | error e => rw [hb3] at h; cases h
+      | ok b3 =>
+        rw [hb3] at h
+        simp only at h
+        have hdesc : ∃ r, ("description", r) ∈ full := by
+          obtain ⟨st, _, hmem⟩ := normFields_mem hfull description_field
+          obtain ⟨v, hv⟩ : ∃ v, encodeField ⟨"Description", "description", false, false, false, .str⟩ st = some ("description", v) := by
+            unfold encodeField; cases st <;> simp
+          exact ⟨v, hmem _ hv⟩
+        split at h
+        · -- b2 is a single string member
+          rename_i k t
+          by_cases ht : (t != "") = true
+          · rw [if_pos ht] at h
+            cases hlit : normFields rec (tableOf "ResponseProps") (setOmitEmpty "description" (tableOf "ResponseProps")) ms with
+            | error e => rw [hlit] at h; cases h
+            | ok lit =>
+              rw [hlit] at h
+              simp only [Except.ok.injEq] at h
+              rw [concatMembers_eq] at h
+              refine ⟨_, h.symm, ?_⟩
+              intro hno
+              exfalso
+              -- the member name is `$ref`: what `refOfMap` returns
+              have hk : k = "$ref" := by
+                simp only [normRefable, bind, Except.bind] at hb2
+                cases hg : genericMap (.obj ms) with
+                | error e => rw [hg] at hb2; cases hb2
+                | ok d =>
+                  rw [hg] at hb2
+                  simp only [refOfMap] at hb2
+                  split at hb2
+                  · split at hb2
+                    · simp only [pure, Except.pure, Except.ok.injEq, List.cons.injEq, Prod.mk.injEq, and_true] at hb2
+                      exact hb2.1.symm
+                    · split at hb2 <;> simp [goError, pure, Except.pure] at hb2
+                    · simp [outOfModel] at hb2
+                  · simp [pure, Except.pure] at hb2
+              subst hk
+              have : t = "" := hno t (List.mem_flatten.mpr ⟨[("$ref", .str t)], by simp, by simp⟩)
+              simp [this] at ht
+          · rw [if_neg ht] at h
+            simp only [Except.ok.injEq] at h
+            rw [concatMembers_eq] at h
+            obtain ⟨r, hr⟩ := hdesc
+            exact ⟨_, h.symm, fun _ => ⟨r, List.mem_flatten.mpr ⟨full, by simp, hr⟩⟩⟩
+        · rw [if_neg (by decide)] at h
+          simp only [Except.ok.injEq] at h
+          rw [concatMembers_eq] at h
+          obtain ⟨r, hr⟩ := hdesc
+          exact ⟨_, h.symm, fun _ => ⟨r, List.mem_flatten.mpr ⟨full, by simp, hr⟩⟩⟩
 end SpecModel.Codec
